@@ -29,6 +29,8 @@ VARIANTS = [
     ("helper_only", {"Debug": [], "Display": [], "IntoStr": []}),
     ("helper_two_autos", {"IntoStr": [], "from_str": [], "FromStr": []}),
     ("table_range", {"as_str": [["mode", "table"]], "iter": [], "range": [], "IntoStr": []}),
+    ("table_range_iter_table", {"as_str": [["mode", "table"]], "iter": [["mode", "table"]], "range": [], "Display": []}),
+    ("helper_table_parsers_iter_range", {"Display": [], "from_str": [["mode", "table"]], "iter": [], "range": []}),
 ]
 STRING_FEATS = ("as_str", "Debug", "Display", "IntoStr", "names", "from_str", "FromStr")
 
@@ -67,7 +69,7 @@ def run_case(case):
         modules.append((spec, cfg, {"kind": "plain"}))
         C.sc_str(sc, k, m, cfg, idxs)
         out.count("module_" + name)
-        if name in ("table", "auto_names", "helper_two_autos", "table_range"):
+        if name in ("table", "auto_names", "helper_two_autos", "table_range", "table_range_iter_table"):
             table_like = True
     J.run_script(out, modules, sc)
     C.std_labels(out, m)
